@@ -71,6 +71,8 @@ class RequestHandlerBase(MethodView):
             token = params['csrf_token']
         except KeyError:
             raise CsrfFailureException('csrf_token not present')
+        if not isinstance(token, str) or not token:
+            raise CsrfFailureException('csrf_token not present')
         CsrfProtection.check(service, token)
 
     def get_bool_param(self, param: str, default: bool | None = False) -> bool:
